@@ -3,7 +3,7 @@ import copy
 import json
 import logging
 
-from harness import core, engine
+from harness import core, facts, engine
 from harness.props import c01
 
 
@@ -154,12 +154,37 @@ def load_corpus():
     return out
 
 
+# tie to the source: coq/gen/ConfigGen.v is written from $VERIF_REPO/src on every run (harness/props/c12_tie.py)
+def generate():
+    from harness.props import c12_tie
+    return c12_tie.generate()
+
+
+def extract(ctx):
+    from harness.props import c12_tie
+    return c12_tie.extract(ctx)
+
+
 def run(ctx):
     import pyhf
     logging.getLogger('pyhf').setLevel(logging.CRITICAL)
     rng = ctx.rng
-    ok, txt = core.prove(ctx, extra=['EngineRun.vo'])
-    tie = None if ok else 'proof obligations of props/C12.v no longer check: ' + txt[-1500:]
+    tie = None
+    try:
+        ctx.coverage['translated_from_source'] = extract(ctx)
+    except facts.TieBroken as e:
+        tie = 'translation of pyhf/mixins.py (_ChannelSummaryMixin.__init__) to Gallina failed (harness/props/c12_tie.py): %s' % e
+    if tie is None:
+        ok, txt = core.prove(ctx, extra=['EngineRun.vo'])
+        if not ok:
+            why = ('the channel summary translated from the source no longer coincides with the hand model (coq/TieConfig.v, C12_source_is_model_channel_summary): '
+                   if ('TieConfig' in txt or 'source_is_model' in txt or 'ConfigGen' in txt) else 'proof obligations of props/C12.v no longer check: ')
+            tie = why + txt[-1500:]
+    if tie is not None:
+        core.coq_make(['EngineRun.vo'])                # the hand model is run for the correspondence even when the tie no longer checks
+    ctx.trusted += ['harness/props/c12_tie.py + harness/props/tie_translate.py (python ast -> Gallina for _ChannelSummaryMixin.__init__; fail closed): '
+                    'C12_source_is_model_channel_summary proves the translated definition equal to cfg_channels / cfg_samples / cfg_modifiers / nbins / '
+                    'channel_slices of the hand model; the reading of the python values is stated in the header of coq/gen/ConfigGen.v']
     pyhf.set_backend('numpy')
     n = ctx.n(150, 2500)
     cases = c01.gen_cases(ctx, n)
